@@ -315,19 +315,24 @@ theorem C08_end_same_token {c : State} (h : Inv c) {remote : Remote} {w : Wire} 
   have hc0 : (w.code == 0) = false := by
     simp only [isRequest, Bool.and_eq_true, decide_eq_true_eq] at hreq
     simp; omega
-  have hna : (w.mtype == .ack || w.mtype == .rst) = false := by
-    rcases ht with ht | ht <;> simp [ht]
+  have hna : fitsReply w = false := by
+    rcases ht with ht | ht <;> simp [fitsReply, ht]
+  have hdd : dedupable w = true := by
+    rcases ht with ht | ht <;> simp [dedupable, hreq, ht]
   have hcn : (w.mtype == .con || w.mtype == .non) = true := by
     rcases ht with ht | ht <;> simp [ht]
   have hdel : Out.deliver c.ml.nextSrv remote w ∈ (MsgLayer.handle c.ml (.recv remote mcl w)).2 := by
     simp only [MsgLayer.handle, hs, Bool.false_eq_true, ↓reduceIte]
     unfold MsgLayer.recv
-    simp only [hdup, hreq, Bool.false_eq_true, ↓reduceIte, hna, List.nil_append]
+    simp only [hdup, hdd, Bool.false_eq_true, ↓reduceIte, hna, List.nil_append]
     unfold recvCode
     simp only [hc0, Bool.false_and, Bool.false_eq_true, ↓reduceIte, hreq, hcn, Bool.and_self]
+    have hq : ∀ s0 : MsgLayer.State, (fireEmptyAck s0 remote w.token).1.nextSrv = s0.nextSrv :=
+      fun s0 => (fireEmptyAck_Quiet s0 remote w.token).nxt
     unfold processRequest
     dsimp only
-    split <;> simp [tokenProcessRequest, dropIncoming] <;> split <;> simp
+    apply List.mem_append_right
+    split <;> simp [tokenProcessRequest, dropIncoming, hq] <;> split <;> simp [hq]
   exact ⟨newTask c.ml.nextSrv remote w,
     List.mem_append_right _ (mem_delivered.mpr ⟨_, _, _, hdel, rfl⟩), rfl, rfl, rfl, rfl⟩
 
